@@ -649,7 +649,14 @@ class Message:
 
                 # FIXME: This sounds like it should be part of
                 # hpostportjoin/-split
-                escaped_host = quote_nonascii(host)
+                try:
+                    ipaddress.ip_address(host.strip("[]").partition("%")[0])
+                except ValueError:
+                    # A reg-name: Uri-Host carries it percent-decoded, so
+                    # anything but unreserved and sub-delims is escaped again
+                    escaped_host = _quote_for_host(host)
+                else:
+                    escaped_host = quote_nonascii(host)
 
                 # FIXME: "If host is not valid reg-name / IP-literal / IPv4address,
                 # fail"
@@ -879,6 +886,7 @@ class UndecidedRemote(
 
 _ascii_lowercase = str.maketrans(string.ascii_uppercase, string.ascii_lowercase)
 
+_quote_for_host = quote_factory(unreserved + sub_delims)
 _quote_for_path = quote_factory(unreserved + sub_delims + ":@")
 _quote_for_query = quote_factory(
     unreserved + "".join(c for c in sub_delims if c != "&") + ":@/?"
